@@ -1,13 +1,13 @@
 /-! GENERATED on every run by checks/C32.py (SPEC['gen']) from the current /repo working tree - do not edit.
 Source: SimTKcommon/src/String.cpp - the final `return` of String::tryConvertToBool/Float/Double. -/
 namespace C32.Gen
-/-- SimTKcommon/src/String.cpp:78  `return !sstream.fail();` -/
+/-- SimTKcommon/src/String.cpp:88  `return extractedWholeString(sstream);` -/
 def recognizedBool : Bool := true
-def checksRestBool : Bool := false
-/-- SimTKcommon/src/String.cpp:91  `return !sstream.fail();` -/
+def checksRestBool : Bool := true
+/-- SimTKcommon/src/String.cpp:101  `return extractedWholeString(sstream);` -/
 def recognizedFloat : Bool := true
-def checksRestFloat : Bool := false
-/-- SimTKcommon/src/String.cpp:104  `return !sstream.fail();` -/
+def checksRestFloat : Bool := true
+/-- SimTKcommon/src/String.cpp:114  `return extractedWholeString(sstream);` -/
 def recognizedDouble : Bool := true
-def checksRestDouble : Bool := false
+def checksRestDouble : Bool := true
 end C32.Gen
